@@ -117,6 +117,7 @@ def main():
         with ThreadPoolExecutor(max_workers=min(16, max(1, len(units)))) as ex:
             reps = list(ex.map(lambda u: run_unit(u, tier, known_open), units))
         harnesses = [h for h in P.get("bounded", []) if tier == "thorough" or not h.get("thorough_only")]
+        if os.environ.get("VERIF_NO_HARNESS"): harnesses = []          # engine self-tests (mutation table) exercise the deductive part only
         with ThreadPoolExecutor(max_workers=4) as ex:
             hfut = [ex.submit(run_harness, h, tier, seed, pid, scratch) for h in harnesses]
             lean = lean_status(P.get("lean", []), tier) if P.get("lean") else None
